@@ -32,16 +32,22 @@ pub fn run_seed(seed: u64, id: &str, idx: u64) -> u64 {
 /// Execute a spec; a panic that escapes the scenario (i.e. not inside `guard`) is a harness error.
 struct Discard;
 impl log::Log for Discard {
-    fn enabled(&self, _: &log::Metadata) -> bool {
-        true
+    fn enabled(&self, m: &log::Metadata) -> bool {
+        // `LOGGER_FILTER`: the application wants Trace output from its own modules only (what
+        // `RUST_LOG=info,myapp=trace` gives with env_logger): the global max level is Trace, records of the
+        // crates under test are refused by the logger itself
+        !(LOGGER_FILTER.load(std::sync::atomic::Ordering::Relaxed) && m.target().starts_with("rand_"))
     }
     fn log(&self, record: &log::Record) {
         // the arguments are evaluated (that is the point) and dropped
-        let _ = format!("{}", record.args());
+        if self.enabled(record.metadata()) {
+            let _ = format!("{}", record.args());
+        }
     }
     fn flush(&self) {}
 }
 static DISCARD: Discard = Discard;
+pub static LOGGER_FILTER: std::sync::atomic::AtomicBool = std::sync::atomic::AtomicBool::new(false);
 
 /// The application's logging configuration is part of the environment a library runs in. A logger
 /// that evaluates and discards every record is installed once per process; each run raises or lowers
@@ -157,6 +163,10 @@ pub fn generate(scn: &dyn Scenario, rng: &mut Prng, tier: Tier) -> Spec {
         // real time flies while the code under test runs: 1 ms, 0.3 s, 1.5 s or an hour per clock reading
         spec.wall_step_ms = *rng.pick(&[1u64, 300, 1_500, 3_600_000]);
     }
+    if spec.logger && rng.chance(1, 3) {
+        // max level Trace, but the logger itself refuses records whose target is one of the crates under test
+        spec.logger_filter = true;
+    }
     if spec.pre_new {
         // the calendar date the real clock shows while this run's real-clock constructor runs
         spec.wall_date = rng.below(wallclock::DATES.len() as u64) as u8;
@@ -188,6 +198,7 @@ pub fn on_spec_thread<R: Send>(spec: &Spec, f: impl FnOnce() -> R + Send) -> Opt
 /// also applied by the modes that execute a corpus spec directly
 pub fn set_run_environment(spec: &Spec) {
     log::set_max_level(if spec.logger { log::LevelFilter::Trace } else { log::LevelFilter::Off });
+    LOGGER_FILTER.store(spec.logger_filter, std::sync::atomic::Ordering::Relaxed);
     crate::gens::set_call_generic(spec.generic);
     crate::gens::set_place(spec.place);
     wallclock::set_date(if spec.wall_date > 0 { wallclock::DATES[spec.wall_date as usize % wallclock::DATES.len()] } else { 0 });
@@ -213,8 +224,12 @@ pub fn execute_guarded(scn: &dyn Scenario, spec: &Spec, st: &mut Stats) -> RunEn
         st.count("probe:generic_call_sites");
     }
     log::set_max_level(if spec.logger { log::LevelFilter::Trace } else { log::LevelFilter::Off });
+    LOGGER_FILTER.store(spec.logger_filter, std::sync::atomic::Ordering::Relaxed);
     if spec.logger {
         st.count("fault:trace_logger_enabled");
+    }
+    if spec.logger && spec.logger_filter {
+        st.count("fault:logger_refuses_library_targets");
     }
     let flying = spec.wall_step_ms > 0 && wallclock::set_step_ns((spec.wall_step_ms as i64).saturating_mul(1_000_000));
     if flying {
@@ -258,6 +273,7 @@ pub fn execute_guarded(scn: &dyn Scenario, spec: &Spec, st: &mut Stats) -> RunEn
                     // the harness's own thread-locals first: they outlive the hook
                     LAST_PANIC.with(|_| ());
                     crate::gens::touch_thread_locals();
+                    crate::seams::source::touch_thread_locals();
                     // Safety: the thread (destructors included) is joined before `scn`, `spec` and
                     // `body` go out of scope
                     let again: Box<dyn FnOnce() + '_> = Box::new(move || {
